@@ -218,6 +218,9 @@ class SR:
             return s**n
         raise Inconclusive('fractional power %s outside the algebraic model' % e)
 
+    def __mod__(self, m):
+        return engine().mod(self, m)
+
     def sqrt(self):
         return engine().sqrt(self)
 
@@ -555,6 +558,24 @@ class Engine:
         key = ('uf', name, tuple(a.key() for a in args))
         a = self.atom(key, lambda: f(*[x.z3() for x in args]))
         return SR({((a, 1), ): Fraction(1)})
+
+    def mod(self, x, m):
+        """x % m for a positive constant modulus: x - m*q with a fresh integer q and 0 <= x - m*q < m."""
+        x, m = SR.lift(x), SR.lift(m)
+        if not m.is_const() or m.const_value() <= 0:
+            raise Inconclusive('modulo by a symbolic or non-positive value')
+        if x.is_const():
+            return SR.const(x.const_value() % m.const_value())
+        n = len([1 for k in self._atom_by_key if k[0] == 'modq'])
+        qi = z3.Int('modq!%d' % n)
+        a = self.atom(('modq', n), lambda: z3.ToReal(qi), 'q%d' % n)
+        q = SR({((a, 1), ): Fraction(1)})
+        r = x - m * q
+        ax = z3.And(r.z3() >= 0, r.z3() < m.z3())
+        self.axioms.append(ax)
+        if self.in_run:
+            self.solver.add(ax)
+        return r
 
     def register_sqrt(self, square, root):
         self._sqrt_of[square.key()] = root
